@@ -54,6 +54,12 @@ Theorem C05_returned_matching_covers_along_edges_partial : forall g mt, find_per
   forall i, (i < length mt)%nat -> exists j, nth_error mt i = Some (Some j).
 Proof. exact perfect_matching_valid. Qed.
 
+Example C05_returned_matching_example :
+  match find_perfect_matching [[1; 5]; [0; 2]; [1; 3]; [2; 4]; [3; 5]; [4; 0]]%nat with
+  | Ok (Some mt) => Nat.eqb (length mt) 6 && forallb (fun o => match o with Some _ => true | None => false end) mt
+  | _ => false end = true.
+Proof. vm_compute. reflexivity. Qed.
+
 (* "the sigma skeleton ... unchanged": kekulize leaves every slot of every adjacency row in place and changes nothing of
    an edge but its order (first conjunct: the graphs agree once orders are erased); and the only orders it changes are
    those of aromatic bonds (1.5, i.e. 3 half units), which become single or double (second conjunct) *)
